@@ -339,7 +339,7 @@ def run(c: Check):
         gold = ROOT / "golden" / "c16.json"
         if gold.exists():
             cases += json.load(open(gold))
-        nh, ne = (420, 36) if c.quick else (9000, 480)
+        nh, ne = (300, 32) if c.quick else (7000, 400)
     for _ in range(nh):
         cases.append(gen_hist(c.rng))
     for _ in range(ne):
@@ -360,7 +360,17 @@ def run(c: Check):
         else:
             c.count("probe-leave:" + case["leave"])
         seen_ok, nontrivial = False, case["kind"] == "excl"
+        prev = EMPTY
         for run_, r in zip(rs, rr):
+            jp, bp = set(names(prev["jobs"])), set(names(prev["bak"]))
+            if jp & bp and "mkbak" in r["log"]:
+                c.count("enter-finds-same-link-in-jobs-and-backup")
+            if "entered" not in r["log"] and "mkbak" in r["log"] and 0 < len(jp - set(names(r["snap"]["jobs"]))) < len(jp):
+                c.count("killed-with-links-partly-moved")
+            if "endblock" in r["log"] and "exited" not in r["log"] and r["snap"]["bak"] is not None \
+                    and len(names(r["snap"]["bak"])) < len(jp | bp):
+                c.count("killed-with-backup-partly-removed")
+            prev = r["snap"]
             c.count("end:" + run_["end"])
             c.count(f"submits={len(subs_of(r['log']))}")
             reached = ("exited" if "exited" in r["log"] else "exc" if "raise" in r["log"] else
